@@ -5,6 +5,7 @@ package service
 // connection or datagram, what closed handles answer, what is released at the end.
 
 import (
+	"errors"
 	"net"
 )
 
@@ -47,7 +48,7 @@ func verifLMOps(steps int) {
 				a := <-h.acc
 				h.acc = nil
 				if a.err != nil {
-					verifAssert("C12.ops.accept-fails-only-on-a-closed-handle", a.err == net.ErrClosed && !h.open)
+					verifAssert("C12.ops.accept-fails-only-on-a-closed-handle", errors.Is(a.err, net.ErrClosed) && !h.open)
 				} else {
 					id := verifTCPConnID(a.conn)
 					verifAssert("C12.ops.delivered-a-dialled-connection", id >= 0)
@@ -73,7 +74,7 @@ func verifLMOps(steps int) {
 				p := <-h.rd
 				h.rd = nil
 				if p.err != nil {
-					verifAssert("C12.ops.read-fails-only-on-a-closed-handle", p.err == net.ErrClosed && !h.open)
+					verifAssert("C12.ops.read-fails-only-on-a-closed-handle", errors.Is(p.err, net.ErrClosed) && !h.open)
 				} else {
 					ok := p.n == 2 && p.data[0] == p.data[1] && p.data[0] >= 1 && int(p.data[0]) <= dgSent
 					verifAssert("C12.ops.datagram-intact", ok)
